@@ -24,4 +24,4 @@ OUT=/verif/seeded/RECHECK-seed${VERIF_SEED:-0}.txt
 cat /verif/work/recheck-*.log | sort > $OUT
 rm -f /verif/work/recheck-*.log
 echo "rechecked $(wc -l < $OUT) with VERIF_SEED=${VERIF_SEED:-0}; not caught: $(grep -vc 'rc=1' $OUT)"
-grep -v 'rc=1' $OUT
+grep -v "rc=1" $OUT || true
